@@ -29,6 +29,10 @@
   alone / the normalised result / the sample law and `tensor_product`'s empty-left-factor quirk
   (`Lemmas/C08Sample.lean`), the backend's `add` inside `BSLayeredPPNR.detect` (`bsDetectP`), and mixed inputs through
   the detector path (`Model/C08Mix.lean`, `Lemmas/C08Mix.lean`).
+  Extension round 4: one instance through `detect` calls at a CHANGING `min_p` (`Model/C08Hist.lean`,
+  `Lemmas/C08Hist.lean`): `detectInstH true` / `bsInstH true` = the code with `fixes/C08-detect-cache-stale-minp.diff`
+  applied (the main model); `… false` = the pinned tree, whose `_cache` ignores `min_p`
+  (`detect_history_minp_fails_on_current_code`).
   What is still not proved is listed at the end of this file.
 -/
 import PercevalModel.Lemmas.C08
@@ -1948,9 +1952,11 @@ example : mkDetector (some 3) none = .ok (.wired 3 3) ∧ (0 : ℚ) ≤ 0 ∧ (1
     (its closed form as a weighted sum of the members' accepted masses is not stated separately); members are
     un-annotated Fock states (superposed / partially distinguishable inputs belong to C03–C05); the all-PNR (mask) path of
     the mixture is in the model and compared, without a separate theorem;
-  * the statistical quality of `BSDistribution.sample`; progress callbacks / cancellation; a detector's `_cache` is keyed
-    by the photon count only — results cached under another `min_p` are returned unchanged (histories are modelled at a
-    constant `min_p`).
+  * the statistical quality of `BSDistribution.sample`; progress callbacks / cancellation;
+  * histories that change `min_p` between calls are PROVED in round 4 for the repaired code
+    (`detect_history_minp_eq_fresh`, `bs_history_minp_eq_fresh`; pinned code: `detect_history_minp_pinned_law`,
+    `detect_history_minp_fails_on_current_code`); `copy()` of a detector (the copy shares `_cache`) is validated by the
+    correspondence only; no exact pinned-code law is stated for `BSLayeredPPNR` (same mechanism, compared through the driver).
 -/
 
 end examples
